@@ -276,6 +276,20 @@ def readlinkH (env : Env) (h : ProcH) (base : Base) (subpath : Bytes) : M Bytes 
   (Sys.close link : Prog Unit)
   M.ofExcept r
 
+/-- the following half of `open_follow`: the final component is a symlink; open its parent without following,
+check that nothing is mounted on the link, and let the kernel follow this one link -/
+def openFollowTail (env : Env) (h : ProcH) (base : Base) (subpath : Bytes) (oflags : Nat) : M Fd := do
+  let (parent, trailing) ← (Path.pathSplit subpath : Except Err _)
+  match trailing with
+  | none => throw .invalidArgument
+  | some trailing =>
+    let parent ← openH env retryFuel h base parent (O_PATH ||| O_DIRECTORY)
+    let parentMnt ← (fetchMntId parent []).onErr (Sys.close parent)
+    (verifySameMnt parentMnt parent trailing).onErr (Sys.close parent)
+    let r ← M.try' (Sys.openatFollow parent trailing oflags 0)
+    (Sys.close parent : Prog Unit)
+    M.ofExcept r
+
 /-- `ProcfsHandle::open_follow` -/
 def openFollowH (env : Env) (h : ProcH) (base : Base) (subpath : Bytes) (oflags : Nat) : M Fd :=
   -- the trailing slash first: it adds `O_DIRECTORY`, which can complete `O_TMPFILE`
@@ -283,23 +297,15 @@ def openFollowH (env : Env) (h : ProcH) (base : Base) (subpath : Bytes) (oflags 
   let subpath := (Path.stripTrailingSlash subpath).1
   if hasAny oflags (O_CREAT ||| O_EXCL) || hasAll oflags O_TMPFILE then throw .invalidArgument else do
   -- only "not a symlink" (`EINVAL`, or `ENOENT` for the empty path of a non-symlink) and "no such
-  -- file" make the no-follow open the right thing; any other failure of the probe is the answer
+  -- file" make the no-follow open the right thing; `ENAMETOOLONG` is a magic-link whose target path
+  -- cannot be printed (finding F25): still a symlink; any other failure of the probe is the answer
   -- (finding F22, repaired)
   match ← M.try' (readlinkH env h base subpath) with
   | .error e =>
     if e = .os EINVAL ∨ e = .os ENOENT then openH env retryFuel h base subpath oflags
+    else if e = .os ENAMETOOLONG then openFollowTail env h base subpath oflags
     else throw e
-  | .ok _ =>
-    let (parent, trailing) ← (Path.pathSplit subpath : Except Err _)
-    match trailing with
-    | none => throw .invalidArgument
-    | some trailing =>
-      let parent ← openH env retryFuel h base parent (O_PATH ||| O_DIRECTORY)
-      let parentMnt ← (fetchMntId parent []).onErr (Sys.close parent)
-      (verifySameMnt parentMnt parent trailing).onErr (Sys.close parent)
-      let r ← M.try' (Sys.openatFollow parent trailing oflags 0)
-      (Sys.close parent : Prog Unit)
-      M.ofExcept r
+  | .ok _ => openFollowTail env h base subpath oflags
 
 /-- `FdExt::as_unsafe_path` (through the global handle) -/
 def asUnsafePath (env : Env) (fd : Fd) : M Bytes := do
